@@ -97,6 +97,33 @@ func main() {
 		}
 		b, _ := json.MarshalIndent(dumpVars(p), "", " ")
 		os.Stdout.Write(b)
+	case "funcs": // dev helper: the functions and methods of the current tree, all four configurations (baseline/funcs.json)
+		set := map[string][]string{}
+		for _, cfg := range []string{"linux/amd64", "windows/amd64", "darwin/amd64", "linux/386"} {
+			parts := strings.Split(cfg, "/")
+			p, err := loadProgram(parts[0], parts[1])
+			if err != nil {
+				fmt.Fprintln(os.Stderr, err)
+				os.Exit(2)
+			}
+			for _, f := range p.AllFns {
+				if n := topName(f); n != "" {
+					set[n] = paramSig(f)
+				}
+			}
+		}
+		b, _ := json.MarshalIndent(set, "", " ")
+		os.Stdout.Write(b)
+	case "dumpfn": // dev helper: print the SSA of one function as the rules see it (after expansion of new helpers and pruning)
+		p, err := loadProgram("linux", "amd64")
+		if err != nil {
+			fmt.Fprintln(os.Stderr, err)
+			os.Exit(2)
+		}
+		if f := p.Funcs[os.Args[2]]; f != nil {
+			f.WriteTo(os.Stdout)
+		}
+		fmt.Println("inlined:", p.Inlined, "away:", p.InlinedAway, "reordered:", p.Reordered)
 	case "gosites": // dev helper: every go statement with caller and callee
 		p, err := loadProgram("linux", "amd64")
 		if err != nil {
